@@ -1,5 +1,7 @@
 import itertools
 import json
+import os
+import stat
 import subprocess
 from pathlib import Path
 from tempfile import NamedTemporaryFile
@@ -103,6 +105,17 @@ class InternalSemgrepResultSet(SemgrepResultSet):
         return paths_for_rule.get(file, [])
 
 
+def _scannable(path: Path) -> bool:
+    """Semgrep refuses an explicit target that is missing or lacks the owner-read
+    permission bit and then fails the whole scan."""
+    try:
+        return path.is_dir() or (
+            os.access(path, os.R_OK) and bool(path.stat().st_mode & stat.S_IRUSR)
+        )
+    except OSError:
+        return False
+
+
 def run(
     execution_context: CodemodExecutionContext,
     yaml_files: Iterable[Path],
@@ -129,7 +142,17 @@ def run(
                 map(lambda f: ["--config", str(f)], yaml_files)
             )
         )
-        command.extend(map(str, files_to_analyze or [execution_context.directory]))
+        targets = [Path(f) for f in files_to_analyze or [execution_context.directory]]
+        if unreadable := [t for t in targets if not _scannable(t)]:
+            # One unreadable file must not abort the scan of all the others
+            logger.warning(
+                "skipping unreadable file(s) in semgrep scan: %s",
+                ", ".join(map(str, unreadable)),
+            )
+            targets = [t for t in targets if t not in unreadable]
+            if not targets:
+                return InternalSemgrepResultSet()
+        command.extend(map(str, targets))
         logger.debug("semgrep command: `%s`", " ".join(command))
         call = subprocess.run(
             command,
